@@ -89,6 +89,18 @@ impl<'a> Parser<'a> {
 		false
 	}
 
+	/// Eat `t` only if nothing (not even trivia) separates it from the previous token
+	fn try_eat_glued(&mut self, t: SyntaxKind) -> bool {
+		if self.at(t)
+			&& self.offset > 0
+			&& self.lexemes[self.offset - 1].range.1 == self.lexemes[self.offset].range.0
+		{
+			self.eat_any();
+			return true;
+		}
+		false
+	}
+
 	fn current_desc(&self) -> String {
 		if self.at_eof() {
 			return "end of file".to_owned();
@@ -528,8 +540,9 @@ fn bind(p: &mut Parser<'_>) -> Result<BindSpec> {
 
 fn visibility(p: &mut Parser<'_>) -> Result<Visibility> {
 	p.eat(T![:])?;
-	if p.try_eat(T![:]) {
-		if p.try_eat(T![:]) {
+	// `::` and `:::` are single tokens of the grammar, the lexer only knows `:`
+	if p.try_eat_glued(T![:]) {
+		if p.try_eat_glued(T![:]) {
 			Ok(Visibility::Unhide)
 		} else {
 			Ok(Visibility::Hidden)
